@@ -633,7 +633,14 @@ impl Rasn {
             | ASN1Type::ObjectClassField(_)
             | ASN1Type::EmbeddedPdv
             | ASN1Type::External => (vec![], quote!(Any)),
-            ASN1Type::ChoiceSelectionType(_) => unreachable!(),
+            ASN1Type::ChoiceSelectionType(_) => {
+                return Err(GeneratorError {
+                    kind: GeneratorErrorType::Asn1TypeMismatch,
+                    details: "Choice selection type should have been resolved at this point!"
+                        .into(),
+                    top_level_declaration: None,
+                })
+            }
         })
     }
 
